@@ -56,3 +56,124 @@ Example C09_fold_example :
   fold (EBinary BAdd (EBinary BMul (EConst (VInt 2)) (EConst (VInt 3))) (ECol 0))
   = EBinary BAdd (EConst (VInt 6)) (ECol 0).
 Proof. reflexivity. Qed.
+
+From Coq Require Import String.
+From Verif Require Import Model.PyMini Model.PrimsApi Gen.SrcParams Proofs.SrcParams.
+Open Scope list_scope.
+
+(* ---- Tie by translation (re-checked on every run against the CURRENT source of beanquery/compiler.py and
+   beanquery/__init__.py).  Gen/SrcParams.v holds the PyMini translations (harness/vf/py2mini.py + src_api.py, from
+   inspect.getsource of the imported objects) of Compiler.compile, Compiler._placeholder, compiler.compile and
+   Connection.execute / cursor / parse / compile.  The primitives the bodies use (isinstance, set and dict
+   comprehensions, all / any, sorted(key=pos), enumerate, id, subscripts, raise) have the semantics of
+   Model/PrimsApi.v; a statement is the list of nodes query.walk() yields (placeholders and nodes of other classes),
+   parameters are None / a list / a mapping.
+
+   C09_source_placeholders: for EVERY statement and parameter set the translated Compiler.compile raises exactly the
+   error Model/Params.bind (the function the theorems above are stated over) gives - TypeError for the wrong
+   container, "query parameter missing", the count mismatch, "cannot be mixed" - and otherwise stores the parameters
+   and (positional case) the numbering of the placeholders ON THE COMPILER OBJECT, calls check_subqueries and
+   returns what self._compile(query) returns. *)
+Theorem C09_source_placeholders : forall (call_ref : nat -> list pv -> pv) (msg : string -> list pv -> pv)
+    (kcs kc : nat) (w : list node) (p : Params.params) (P0 D0 : pv),
+  ref_of refs "beanquery.compiler.check_subqueries" = Some kcs ->
+  Forall other_ok w -> plain (phs_of w) ->
+  let phs := phs_of w in
+  call_method call_ref (prim_api params_lib msg) compiler_compile (cflds P0 D0 kc) [enc_query w; enc_params p] =
+  match snd (Params.bind false phs p) with
+  | inr e => Exc (err_code e)
+  | inl _ =>
+      PyMini.bind (do_call call_ref (PRef kcs) [enc_query w]) (fun _ =>
+      PyMini.bind (do_call call_ref (PRef kc) [enc_query w]) (fun r =>
+      Ok (cflds (enc_params p) (if positional_case phs then positional_dict phs else D0) kc, r)))
+  end.
+Proof. exact compile_params_src. Qed.
+Print Assumptions C09_source_placeholders.
+
+(* Compiler._placeholder on the object compile leaves behind: a positional placeholder becomes the constant of the
+   parameter whose index is the model's [number_of] (C09_positional_left_to_right: its rank in textual order) *)
+Theorem C09_source_placeholder_positional : forall (call_ref : nat -> list pv -> pv) (msg : string -> list pv -> pv)
+    (kE kc : nat) (phs : list Params.ph) (l : list value) (q : Params.ph),
+  ref_of refs "beanquery.query_compile.EvalConstant" = Some kE ->
+  NoDup (map Params.ph_pos phs) ->
+  In q phs -> plain_name (Params.ph_name q) = true -> Params.name_truthy (Params.ph_name q) = false ->
+  List.length phs = List.length l ->
+  let flds := cflds (enc_params (Params.PSeq l)) (positional_dict phs) kc in
+  call_method call_ref (prim_api params_lib msg) compiler_placeholder flds [enc_ph q] =
+  PyMini.bind (do_call call_ref (PRef kE) [PV (nth (Params.number_of phs q) l VNull)]) (fun r => Ok (flds, r)).
+Proof. exact placeholder_positional_src. Qed.
+Print Assumptions C09_source_placeholder_positional.
+
+(* a named placeholder becomes the constant of the mapping's value for its name (KeyError cannot happen after a
+   successful compile: C09_source_placeholders raises "query parameter missing" first) *)
+Theorem C09_source_placeholder_named : forall (call_ref : nat -> list pv -> pv) (msg : string -> list pv -> pv)
+    (kE kc : nat) (m : list (list Z * value)) (D : pv) (q : Params.ph) (s : list Z),
+  ref_of refs "beanquery.query_compile.EvalConstant" = Some kE ->
+  Params.ph_name q = Params.PNamed s -> s <> [] ->
+  let flds := cflds (enc_params (Params.PMap m)) D kc in
+  call_method call_ref (prim_api params_lib msg) compiler_placeholder flds [enc_ph q] =
+  match Params.lookup s m with
+  | Some v => PyMini.bind (do_call call_ref (PRef kE) [PV v]) (fun r => Ok (flds, r))
+  | None => Exc KeyError
+  end.
+Proof. exact placeholder_named_src. Qed.
+Print Assumptions C09_source_placeholder_named.
+
+(* The premise of the history model (run_history false = expected_history, C09_history_independent): nothing is
+   kept between two executions.  Connection.execute leaves EVERY attribute of the connection as it was and returns
+   what execute of a new cursor returns; Connection.cursor makes a new Cursor(self); compiler.compile makes a new
+   Compiler (the only object whose attributes Compiler.compile writes, by C09_source_placeholders) for every
+   compilation.  (That the translator accepts Compiler.compile at all means it assigns to locals and to attributes
+   of self only: an assignment to an attribute of an AST node is outside the fragment and fails the run.) *)
+Theorem C09_source_connection_execute : forall (call_ref : nat -> list pv -> pv) (msg : string -> list pv -> pv)
+    (kcur : nat) (flds : env) (q p : pv),
+  PyMini.lookup "cursor" flds = Some (PRef kcur) ->
+  call_method call_ref (prim_api params_lib msg) connection_execute flds [q; p] =
+  PyMini.bind (do_call call_ref (PRef kcur) []) (fun cur =>
+  PyMini.bind (opaque_method msg "call:execute" [cur; q; p]) (fun r => Ok (flds, r))).
+Proof. exact connection_execute_src. Qed.
+Print Assumptions C09_source_connection_execute.
+
+Theorem C09_source_connection_cursor : forall (call_ref : nat -> list pv -> pv) (msg : string -> list pv -> pv)
+    (kC : nat) (flds : env),
+  ref_of refs "beanquery.cursor.Cursor" = Some kC ->
+  call_method call_ref (prim_api params_lib msg) connection_cursor flds [] =
+  PyMini.bind (do_call call_ref (PRef kC) [PSelf]) (fun c => Ok (flds, c)).
+Proof. exact connection_cursor_src. Qed.
+Print Assumptions C09_source_connection_cursor.
+
+Theorem C09_source_fresh_compiler : forall (call_ref : nat -> list pv -> pv) (msg : string -> list pv -> pv)
+    (kK : nat) (ctx st p : pv),
+  ref_of refs "beanquery.compiler.Compiler" = Some kK ->
+  call_function call_ref (prim_api params_lib msg) compiler_compile_fn [ctx; st; p] =
+  PyMini.bind (do_call call_ref (PRef kK) [ctx]) (fun c => opaque_method msg "call:compile" [c; st; p]).
+Proof. exact compile_fn_src. Qed.
+Print Assumptions C09_source_fresh_compiler.
+
+Theorem C09_source_connection_parse_compile : forall (call_ref : nat -> list pv -> pv) (msg : string -> list pv -> pv)
+    (kP kF : nat) (flds : env) (q : pv),
+  ref_of refs "beanquery.parser.parse" = Some kP -> ref_of refs "beanquery.compiler.compile" = Some kF ->
+  call_method call_ref (prim_api params_lib msg) connection_parse flds [q] =
+    PyMini.bind (do_call call_ref (PRef kP) [q]) (fun r => Ok (flds, r)) /\
+  call_method call_ref (prim_api params_lib msg) connection_compile flds [q] =
+    PyMini.bind (do_call call_ref (PRef kF) [PSelf; q]) (fun r => Ok (flds, r)).
+Proof. exact (fun cr ms kP kF flds q HP HF => conj (connection_parse_src cr ms kP flds q HP) (connection_compile_src cr ms kF flds q HF)). Qed.
+Print Assumptions C09_source_connection_parse_compile.
+
+(* Non-vacuity: `SELECT %s + x WHERE y = %s` (placeholders at positions 20 and 7 in walk order 20, 7) with two
+   parameters: the translated compile numbers them by position and the translated _placeholder binds the one at
+   position 20 to the SECOND parameter. *)
+Example C09_source_example :
+  let q1 := {| Params.ph_pos := 20; Params.ph_name := Params.PEmpty |} in
+  let q2 := {| Params.ph_pos := 7; Params.ph_name := Params.PEmpty |} in
+  let w := [NOther [83]; NPh q1; NOther [67]; NPh q2] in
+  let cr := fun (k : nat) (args : list pv) => match k, args with 1%nat, [v] => v | _, _ => PNone end in
+  let pr := prim_api params_lib (fun _ _ => PNone) in
+  call_method cr pr compiler_compile (cflds PNone PNone 9) [enc_query w; enc_params (Params.PSeq [VInt 100; VInt 200])]
+    = Ok (cflds (enc_params (Params.PSeq [VInt 100; VInt 200])) (positional_dict [q1; q2]) 9, PNone) /\
+  call_method cr pr compiler_placeholder
+    (cflds (enc_params (Params.PSeq [VInt 100; VInt 200])) (positional_dict [q1; q2]) 9) [enc_ph q1]
+    = Ok (cflds (enc_params (Params.PSeq [VInt 100; VInt 200])) (positional_dict [q1; q2]) 9, PV (VInt 200)) /\
+  call_method cr pr compiler_compile (cflds PNone PNone 9) [enc_query w; enc_params (Params.PSeq [VInt 100])]
+    = Exc ParameterCount.
+Proof. repeat split; vm_compute; reflexivity. Qed.
